@@ -22,7 +22,8 @@ CHECKS = {
              "(some component can always make a useful move while the session has not ended) and TERMINATION (an explicit measure decreases with every useful step; a maximal run has ended). "
              "Partial: with worker failures, and for the other modes, the composition into 'no reachable stuck state' is searched by the stuck-state monitor and the worker-level race search, not proved.", design="5/C02", technique=TECH),
  "C03": dict(text=SYS + "Proved (all states/events): one death notice yields at most one crash report, no other event yields one; the crash item is the head of the dead node's book / first "
-             "undone test, the rest returns to the pool once, finished units are not re-queued.", design="5/C03", technique=TECH),
+             "undone test, the rest returns to the pool once, finished units are not re-queued. SYSTEM level for --dist load with arbitrary crashes (CrashTheorems.v, CrashTokens.v): every crash report names the test the dead worker was executing or "
+             "about to start; without a re-queueing plugin no test is ever started twice; pool ++ all workers' holdings ++ crashed tests is a permutation of the collection.", design="5/C03", technique=TECH),
  "C04": dict(text=SYS + "Proved at SYSTEM level for every configuration and schedule (crashes, replacements): produced(n) = forwarded(n) ++ in controller queue ++ on the wire (FIFO, once, tagged). "
              "Content fidelity (pytest's report serialisation), tallies and exit status are compared in real -n runs against the in-process run.", design="5/C04", technique=TECH + "; real pytest runs for the glue"),
  "C05": dict(text="Theorems for every command stream and every interleaving of receiver-thread lock sections with the main thread (Model/Worker.v): run order = assigned not-withdrawn prefix, "
@@ -55,7 +56,9 @@ CHECKS = {
  "C16": dict(text=SYS + "Proved for EVERY event sequence: at most one shutdown command per worker, never a second; every scheduler operation except the initial schedule sends no work to a flagged node "
              "(the initial schedule under 'no node flagged yet'); steal requests name only booked tests; indices stay valid.", design="5/C16", technique=TECH),
  "C17": dict(text=SYS + "Deaths are injected at every lifecycle point; any controller exception other than the documented 'no active workers' exit, any stuck state and any budget violation is reported with its schedule. "
-             "Proofs: the restart budget and crash-report theorems (C10, C03) hold for every event sequence incl. events of unknown nodes; a general 'never raises' theorem is not proved: partial.", design="5/C17", technique=TECH),
+             "Proofs: SYSTEM level for --dist load (CrashCoupling.v, CrashTheorems.v), ARBITRARY crashes at any moment, replacements, any budget, every schedule: the book coupling invariant extended to dead and replacement workers; "
+             "the only exception the controller can end with is the documented 'no active workers' one, which needs a worker that collected a different list; with agreeing collections the controller never raises. "
+             "For every mode: the restart budget and crash-report theorems (C10, C03) hold for every event sequence incl. events of unknown nodes. Partial: 'never raises' for the other modes is searched by the monitors, not proved.", design="5/C17", technique=TECH),
  "C18": dict(text="Model of StatRecorder.check (visit filters, cache bookkeeping, duplicate/nested roots) and of the failure memory, compared with the real classes on a real temp directory with explicit mtimes; "
              "an independent set-difference oracle checks 'changed iff the watched set changed' on every poll. Proved (Proofs/StatRecProofs.v) for every snapshot and ANY root list: a poll reports a change iff the map path->(mtime,size) of watched files differs from the cache "
              "(created, deleted, mtime or size different in either direction), the new cache is the watched set, a second poll on the same snapshot reports nothing, the cache never holds a path twice; plus the failure-memory theorems.",
